@@ -41,7 +41,7 @@ Lvl(lvl, fam, raw(_)) ==
      \o SetToSeq(bin("ext.eq", 0))
      \o SetToSeq(un("ext.dbl", 0)) \o SetToSeq(un("ext.dbl", 1)) \o SetToSeq(un("ext.neg", 0)) \o SetToSeq(un("ext.neg", 1))
      \o SetToSeq(un("ext.sqr", 0)) \o SetToSeq(un("ext.sqr", 1)) \o SetToSeq(un("ext.inv", 0)) \o SetToSeq(un("ext.inv", 1))
-     \o SetToSeq(un("ext.is_zero", 0)) \o SetToSeq(un("ext.writebe", 0))
+     \o SetToSeq(un("ext.is_zero", 0)) \o SetToSeq(un("ext.writebe", 0)) \o SetToSeq(un("ext.copy", 0)) \o SetToSeq(un("ext.copy", 1))
      \o SetToSeq({ [op |-> "ext.frob", lvl |-> lvl, a |-> raw(x), power |-> k, alias |-> al, src |-> "gen"] : x \in fam, k \in 0..13, al \in {0, 1} })
      \o SetToSeq({ [op |-> "ext.exp", lvl |-> lvl, a |-> raw(x), e |-> Pad(e, 32), alias |-> al, src |-> "gen"] :
                    x \in { y \in fam : y \in { CHOOSE z \in fam : TRUE } \cup { CHOOSE z \in fam : z # (CHOOSE w \in fam : TRUE) } }, e \in Exps, al \in {0, 1} })
